@@ -37,7 +37,9 @@ def C06_full_statement : Prop := ∀ (fuel : Nat) (p : Code), runY facts fuel p 
     return and on panic; recover stops a panic exactly where Go says; named results survive; an
     unrecovered panic comes back from Eval as an error carrying the value** — for every program of the
     mini-language in `Dom` (no deferred callee that may panic while another deferred call of the same
-    frame is pending; no defer argument that is the named result variable), every call depth. -/
+    frame is pending; no re-panic of the recovered value), every call depth. Since the repair of F06-1
+    the argument of a defer statement may be any expression of the mini-language, the named result
+    variable included: the three sites copy it when the defer statement executes. -/
 theorem defer_lifo_exactly_once_partial (fuel : Nat) (p : Code) (h : Dom p = true) :
     runY facts fuel p = Spec.run fuel p := by
   unfold runY Spec.run
@@ -106,12 +108,33 @@ theorem deferred_panic_recover_witness :
     runY facts 4 progF07rec = ⟨[], .panicErr (some (.str "second")), true⟩ ∧
     Spec.run 4 progF07rec = ⟨[.recd (some (.str "second"))], .ok, true⟩ := by decide
 
-/-- F06-1 `r = 1; defer fmt.Println("b", r); r = 2` -/
+/-- F06-1 (fixed) `r = 1; defer fmt.Println("b", r); r = 2` -/
 def progArgRef : Code := .setRes 1 (.deferBin "b" .res (.setRes 2 .done))
 
-theorem defer_arg_by_ref_witness :
-    Dom progArgRef = false ∧
-    (runY facts 3 progArgRef).out = [.bin "b" 2] ∧ (Spec.run 3 progArgRef).out = [.bin "b" 1] := by decide
+/-- the same through a deferred interpreted function, which also alters the result afterwards:
+    `r = 1; defer func(a int) (_ int) { fmt.Println("a", a) }(r); r = 2` -/
+def progArgRefSrc : Code := .setRes 1 (.defer (.printArg .done) .res (.setRes 2 .done))
+
+/-- regression for F06-1 (fixed): the inputs are inside `Dom` now and the deferred calls see the value
+    the variable had at the defer statement (before the repair: `Dom = false`, output `b 2` / `a 2`) -/
+example :
+    Dom progArgRef = true ∧
+    (runY facts 3 progArgRef).out = [.bin "b" 1] ∧ (Spec.run 3 progArgRef).out = [.bin "b" 1] ∧
+    Dom progArgRefSrc = true ∧
+    (runY facts 3 progArgRefSrc).out = [.arg 1] ∧ (Spec.run 3 progArgRefSrc).out = [.arg 1] := by decide
+
+/-- the fact is load-bearing: the model run with the facts of the source before the repair (the site stores
+    the frame slot) reads the variable when the deferred call runs — what the interpreter used to do -/
+example :
+    (runY { facts with argsByRefBin := true } 3 progArgRef).out = [.bin "b" 2] ∧
+    (runY { facts with argsByRefCall := true } 3 progArgRefSrc).out = [.arg 2] := by decide
+
+/-- **Arguments are those of the defer statement**: for every pair of values and both kinds of callee,
+    `r = n; defer …(r); r = m` runs the deferred call with `n` -/
+theorem defer_arg_fixed_at_statement (n m : Int) (k : Nat) :
+    (runY facts (k + 2) (.setRes n (.deferBin "b" .res (.setRes m .done)))).out = [.bin "b" n] ∧
+    (runY facts (k + 2) (.setRes n (.defer (.printArg .done) .res (.setRes m .done)))).out = [.arg n] := by
+  constructor <;> rfl
 
 /-- F06-3 through a re-panic: `defer func(){ if x := recover(); x != nil { panic(x) } }(); panic(143)` —
     the value Eval reports has been boxed once more (it prints `<int Value>`) -/
